@@ -131,6 +131,11 @@ static void NAME(void) \
 { \
     ST a, b; int ab, k; CH ref[64] = { 0 }, ref2[64] = { 0 }; \
     PFX##init(&a); PFX##init(&b); \
+    /* reserve on a string that has no storage yet: a failure must be a quiet no-op, and the string stays the empty string */ \
+    step_begin(#NAME " reserve on fresh string"); \
+    SHIM_CALL(ab, PFX##reserve(&a, 10)); CHECK(!ab, "reserve on a fresh string aborted"); \
+    CHECK(PFX##size(&a) == 0 && PFX##str(&a)[0] == 0, "after reserve the fresh string is not the empty string"); \
+    if (PFX##capacity(&a) < 10) { CHECK(fault_in_step(), "reserve failed without an allocation failure"); tr("reserve(fresh)->noop "); } \
     for (k = 0; k < 8 && !failed && !aborted_run; k++) { \
         CH before[64]; size_t bsz = PFX##size(&a); memcpy(before, ref, sizeof before); \
         step_begin(#NAME); \
@@ -156,6 +161,9 @@ static void NAME(void) \
     } \
     step_begin("string clear"); \
     SHIM_CALL(ab, (PFX##clear(&a), PFX##clear(&b))); CHECK(!ab, "clear aborted"); \
+    step_begin("reserve on cleared string"); \
+    SHIM_CALL(ab, PFX##reserve(&a, 5)); CHECK(!ab && PFX##size(&a) == 0 && PFX##str(&a)[0] == 0, "reserve on a cleared string aborted or changed its content"); \
+    SHIM_CALL(ab, PFX##clear(&a)); \
     leak_audit(); \
 }
 #define NLIT(x) x
